@@ -176,9 +176,29 @@ def replay(argv):
     print('RESULT ' + json.dumps(res))
 
 
+def enginea(argv):
+    """Engine A obligation: the harness function builds the SMT encoding from current source and solves it"""
+    modname, fname, tier, seed = argv[0], argv[1], argv[2], int(argv[3])
+    random.seed(seed)
+    t0 = time.time()
+    mod = importlib.import_module(modname)
+    from vlib.astsmt import Untranslatable
+    try:
+        res = getattr(mod, fname)(tier)
+    except Untranslatable as e:
+        res = {'status': 'inconclusive', 'why': 'Untranslatable: %s' % e}
+    res.setdefault('stats', {'paths': res.get('encodings', 1), 'z3_checks': res.get('queries', 0),
+                             'z3_time': res.get('solver_s', 0.0)})
+    res['wall_s'] = round(time.time() - t0, 2)
+    res['shims'] = []
+    print('RESULT ' + json.dumps(res, default=str))
+
+
 if __name__ == '__main__':
     mode = sys.argv[1]
-    if mode == 'analyze':
+    if mode == 'enginea':
+        enginea(sys.argv[2:])
+    elif mode == 'analyze':
         analyze(sys.argv[2:])
     elif mode == 'replay':
         replay(sys.argv[2:])
